@@ -273,7 +273,7 @@ impl<'a> Gen<'a> {
                     .collect();
                 let m = self.rng.below(3);
                 let values = (0..m).map(|_| self.expression(depth)).collect();
-                LocalAssignStatement::new(variables, values).into()
+                VariableAssignment::new(variables, values).into()
             }
             3 | 4 => Statement::Call(self.call(depth)),
             5 => DoStatement::new(self.block(d, in_loop)).into(),
@@ -323,7 +323,7 @@ impl<'a> Gen<'a> {
                 function.into()
             }
             12 => {
-                let mut function = LocalFunctionStatement::from_name(self.name(), self.block(d, false));
+                let mut function = FunctionAssignment::from_name(self.name(), self.block(d, false));
                 for _ in 0..self.rng.below(3) {
                     function = function.with_parameter(self.name());
                 }
